@@ -7,7 +7,9 @@ from harness.props import c17
 ID = "C15"
 MODNAME = "c15"
 to_us, of_us = c17.to_us, c17.of_us
-RULE = ("pairs of distinct naive datetimes of millisecond resolution in years 1900-2200, either order, spans from 1 ms to "
+RULE = ("(ranges are kept wide enough that one ulp of the range resolves less than 0.05 ms of the domain; "
+        "otherwise no double can carry the instant to within a millisecond) " +
+        "pairs of distinct naive datetimes of millisecond resolution in years 1900-2200, either order, spans from 1 ms to "
         "300 years (also: both ends on month ends / leap days / year ends); ranges of either orientation "
         "([0,1000], [0,1], [500,-500], random finite doubles, r0 != r1); per scale 8..12 query instants: the two domain "
         "ends, instants inside, instants outside (up to one span beyond either end), two pairs of equal duration; "
@@ -158,9 +160,16 @@ def _case(rng, a, b):
     span = hi - lo
     rngs = [(0.0, 1000.0), (0.0, 1.0), (500.0, -500.0), (10.5, 823.25), (-3.0, 3.0e6),
             (rng.uniform(-1e4, 1e4), rng.uniform(-1e4, 1e4)), (float(rng.randrange(0, 100)), float(rng.randrange(101, 5000)))]
+    import math
     r0, r1 = rng.choice(rngs)
     if r0 == r1:
         r1 = r0 + 1.0
+    # the round-trip clause ("to within a millisecond") presupposes that a double in the range can
+    # RESOLVE a millisecond of the domain: one ulp of the larger range end corresponds to
+    # ulp * span / |r1 - r0| of domain time.  Ranges so narrow relative to their offset that this
+    # exceeds 0.05 ms (no computation in doubles could then return the instant) are widened.
+    while math.ulp(max(abs(r0), abs(r1))) * (span / 1000.0) / abs(r1 - r0) > 0.05:
+        r1 = r0 + (r1 - r0) * 16 if abs(r1 - r0) * 16 > abs(r1 - r0) else r0 + 1.0
     ins = [lo + rng.randrange(0, span // 1000 + 1) * 1000 for _ in range(4)]
     out = [max(c17.LO, lo - rng.randrange(1, span // 1000 + 2) * 1000), min(c17.HI, hi + rng.randrange(1, span // 1000 + 2) * 1000)]
     qs = [a, b] + ins + out
